@@ -2105,23 +2105,25 @@ func (c *BytecodeCompiler) compileBreakExpressionNode(node *ast.BreakExpressionN
 }
 
 func (c *BytecodeCompiler) leaveScopeOnContinue(line int, label string) {
+	// the locals of the loop body live in the loop's own scope,
+	// the next iteration gets fresh ones, just like at the regular end of the body
 	if label == "" {
 		for i := range c.scopes {
 			scope := c.scopes[len(c.scopes)-i-1]
+			c.closeUpvaluesInScope(line, scope)
 			if scope.typ == loopBytecodeScopeType {
 				break
 			}
-			c.closeUpvaluesInScope(line, scope)
 		}
 		return
 	}
 
 	for i := range c.scopes {
 		scope := c.scopes[len(c.scopes)-i-1]
+		c.closeUpvaluesInScope(line, scope)
 		if scope.label == label {
 			break
 		}
-		c.closeUpvaluesInScope(line, scope)
 	}
 }
 
